@@ -7,6 +7,7 @@ import Lattigo.Model.EncoderC
     ckks encslot <N> <ci> <qs> <P> <scale dy> <slots> <re sd> <im sd>   ⇒ centred coefficients (N ints)
     ckks enccoef <N> <qs> <P> <scale dy> <v0;v1;…  (sd each)>            ⇒ centred coefficients (N ints)
     ckks fixedpoint <P> <scale dy> <x sd> <qs>                          ⇒ residues mod q_i (P = 53: float64 path)
+    ckks decodecoef <P> <scale dy> <c>                                  ⇒ mant,exp of round_P(round_P(c)/scale)
     ckks encpoly <N> <ci> <qs> <slots> <re ints> <im ints>               ⇒ centred coefficients (N ints)
     ckks rotgroup <m>                                                   ⇒ table
     ckks bitrev <bits> <i>                                              ⇒ index
@@ -42,6 +43,12 @@ def handle (toks : List String) : String :=
     | some p, some sc, some x, some qs =>
       showVec (if p == 53 then toRNS (singleFloat64 x sc) qs else fixedPointRNS p x sc qs)
     | _, _, _, _ => badOp
+  | ["ckks", "decodecoef", p, sc, cf] =>
+    match parseNat? p, C06.parseDy? sc, parseInt? cf with
+    | some p, some sc, some cf =>
+      let r := decodeFP p cf sc
+      if r.mag.m = 0 then "0,0" else s!"{if r.neg then "-" else ""}{r.mag.m},{r.mag.e}"
+    | _, _, _ => badOp
   | ["ckks", "rotgroup", m] =>
     match parseNat? m with
     | some m => showVec (rotGroup m)
